@@ -330,6 +330,10 @@ def do_build(args):
             'keep_names_from_file': args.keep_names_from_file}
     elif getattr(args, 'lua_minify', False):
         lua_writer_cls = lua.LuaMinifyTokenWriter
+        lua_writer_args = {
+            'keep_all_names': getattr(args, 'keep_all_names', False),
+            'keep_names_from_file': getattr(
+                args, 'keep_names_from_file', None)}
     file.to_file(
         result, filename=args.filename,
         lua_writer_cls=lua_writer_cls,
